@@ -533,6 +533,27 @@ Theorem pool_count_wide_example :
   has_wide wide_witness = true /\ length wide_witness = 3%nat /\ written_pool_count wide_witness = Ok 6.
 Proof. repeat split; vm_compute; reflexivity. Qed.
 
+(* a pool that ENDS in an 8-byte constant (legal; javac just does not emit it): the entry takes up the last TWO indices,
+   so the count written is two more than the count of the pool in front of it - not the index of the last entry plus one *)
+Lemma jvms_pool_slots_app a b : jvms_pool_slots (a ++ b) = jvms_pool_slots a + jvms_pool_slots b.
+Proof. induction a as [|e a IH]; cbn [app jvms_pool_slots]; [reflexivity|]. rewrite IH. lia. Qed.
+
+Theorem pool_count_tail : forall pool e, jvms_is_wide e = true -> jvms_pool_count (pool ++ [e]) < 65536 ->
+  written_pool_count (pool ++ [e]) = Ok (jvms_pool_count pool + 2) /\ jvms_pool_count (pool ++ [e]) = jvms_pool_slots pool + 3.
+Proof.
+  intros pool e He Hl. rewrite (pool_count_is_jvms _ Hl). unfold jvms_pool_count in *. rewrite jvms_pool_slots_app.
+  cbn [jvms_pool_slots]. rewrite He. split; [f_equal; lia|lia].
+Qed.
+
+Theorem pool_tail_examples :
+  written_pool_count [VV 7 [VN 0; VN 1]] = Ok 3 /\
+  written_pool_count [VV 8 [VN 1074003968; VN 0]] = Ok 3 /\
+  written_pool_count [VV 10 [VL [VN 65]]; VV 7 [VN 0; VN 1]] = Ok 4 /\
+  written_pool_count [VV 10 [VL [VN 65]]; VV 8 [VN 1074003968; VN 0]] = Ok 4 /\
+  written_pool_count [VV 7 [VN 0; VN 1]; VV 8 [VN 1074003968; VN 0]] = Ok 5 /\
+  jvms_is_wide (VV 7 [VN 0; VN 1]) = true /\ jvms_is_wide (VV 8 [VN 1074003968; VN 0]) = true /\ jvms_is_wide (VV 10 [VL [VN 65]]) = false.
+Proof. repeat split; vm_compute; reflexivity. Qed.
+
 (* ------------------------------------------------------------------ corollaries for the public functions *)
 Theorem class_length_exact D v bs : class_write D v = Ok bs -> N.of_nat (length bs) < 4294967296 ->
   class_length D v = Ok (N.of_nat (length bs)).
